@@ -227,6 +227,7 @@ impl<'a, F: Family> Cx<'a, F> {
             elems_tracked: F::E::TRACKED,
             off_seen: false,
             observed: Vec::new(),
+            fams: 0,
         }
     }
     pub fn push_alloc(&self, a: AllocM) -> usize {
@@ -298,9 +299,40 @@ pub fn exec_op<F: Family>(
     sim::note(1, op.code as u64, ((op.a as u64) << 32) | ((op.b as u64) << 16) | op.c as u64);
     sim::note_str(|| format!("op {}", op.text()));
     crate::context::set_op(t, *op);
+    // attribution context: the life story (op families) of the allocations this op is about
+    let opf = crate::context::fam_mask(op.code.families());
+    let mut ctx_f = opf;
+    for g in [op.a, op.b] {
+        let gi = g as usize;
+        if gi >= base && gi < base + slots.len() {
+            if let Some(s) = slots[gi - base].as_ref() {
+                if s.ai != NOAI {
+                    ctx_f |= env.m(|m| m.allocs.get(s.ai).map(|a| a.fams).unwrap_or(0));
+                }
+            }
+        }
+    }
+    crate::context::set_fams(t, ctx_f);
     let mut cx = Cx { slots, base, env, par, t, mark, touched: Vec::new() };
     let out = crate::exec::dispatch(&mut cx, op);
     let touched = std::mem::take(&mut cx.touched);
+    if opf != 0 {
+        for &g in &touched {
+            let gi = g as usize;
+            if gi >= base && gi < base + cx.slots.len() {
+                if let Some(s) = cx.slots[gi - base].as_ref() {
+                    if s.ai != NOAI {
+                        env.m(|m| {
+                            if let Some(a) = m.allocs.get_mut(s.ai) {
+                                a.fams |= opf;
+                            }
+                        });
+                        crate::context::add_fams(t, env.m(|m| m.allocs.get(s.ai).map(|a| a.fams).unwrap_or(0)));
+                    }
+                }
+            }
+        }
+    }
     let exp = match out {
         Skipped => {
             probes::hit(probes::P_OP_SKIPPED);
@@ -439,6 +471,7 @@ fn post_check<F: Family>(env: &Env<F>, par: bool, t: usize, mark: usize, op: &Op
                     elems_tracked: false,
                     off_seen: true,
                     observed: Vec::new(),
+                    fams: 0,
                 })
             });
         }
@@ -472,6 +505,7 @@ fn post_check<F: Family>(env: &Env<F>, par: bool, t: usize, mark: usize, op: &Op
     }
     for b in &exp.freed {
         if !freed.contains(b) {
+            note_blocks(env, &[*b]);
             violation(
                 "leak:not-freed",
                 format!("`{}` released the last owner of block b{} but its memory was not returned", what, b),
@@ -808,6 +842,12 @@ pub fn check_all<F: Family>(slots: &[Option<Slot<F>>], base: usize, env: &Env<F>
     check_global(env, op);
 }
 
+/// Add the life story of the allocations owning `blocks` to the attribution context.
+pub fn note_blocks<F: Family>(env: &Env<F>, blocks: &[u32]) {
+    let f = env.m(|m| m.allocs.iter().filter(|a| blocks.contains(&a.block)).fold(0, |x, a| x | a.fams));
+    crate::context::add_fams(0, f);
+}
+
 pub fn check_global<F: Family>(env: &Env<F>, op: &Op) {
     let (nlive, nleaked) = env.m(|m| (m.live_allocs().count(), m.allocs.iter().filter(|a| a.leaked).count()));
     let lc = ledger::live_count();
@@ -815,6 +855,7 @@ pub fn check_global<F: Family>(env: &Env<F>, op: &Op) {
         let (ids, n) = ledger::live_blocks();
         let known: Vec<u32> = env.m(|m| m.allocs.iter().filter(|a| !a.dead).map(|a| a.block).collect());
         let extra: Vec<u32> = ids[..n].iter().copied().filter(|b| !known.contains(b)).collect();
+        note_blocks(env, &ids[..n]);
         violation(
             if lc > nlive + nleaked { "leak:block" } else { "missing-block" },
             format!(
